@@ -632,6 +632,30 @@ def run_monitor(ctx, prop, transcript):
     return res
 
 
+def monitor_accepts_model(ctx, prop, model_path, impl_complaints=()):
+    """consistency of the two judges: the monitor is run over the *model's* transcript of the same ops; a complaint there that
+    the implementation's trace does not share means monitor and model disagree about the property (one of them is wrong):
+    a broken tie, not a violation.  Returns the number of model traces the monitor accepted."""
+    outp = model_path + ".monitor.txt"
+    rc, err = drv("monitor", prop, model_path, outp)
+    if rc != 0:
+        ctx.tie_failures.append("driver monitor %s (on the model's trace) failed: %s" % (prop, err[-200:]))
+        return 0
+    shared = set(impl_complaints)
+    cur, ncases, bad = "", 0, []
+    for line in open(outp, errors="replace"):
+        line = line.rstrip("\n")
+        if line.startswith("# case"):
+            cur = line
+            ncases += 1
+        elif line.startswith("! ") and (cur, line[2:]) not in shared:
+            bad.append((cur, line[2:]))
+    if bad and not any("rejects the model" in t for t in ctx.tie_failures):
+        ctx.tie_failures.append("the monitor %s rejects the model's own trace in %d of %d cases (monitor and model disagree): %s (%s)" % (prop, len({c for c, _ in bad}), ncases, bad[0][1][:300], bad[0][0]))
+    ctx.coverage["model_traces_accepted_by_monitor"] = ctx.coverage.get("model_traces_accepted_by_monitor", 0) + ncases - len({c for c, _ in bad})
+    return ncases - len({c for c, _ in bad})
+
+
 def handle_complaints(ctx, complaints, sig_of):
     """PROP complaints are property violations (with the op as replay), CORR ones a broken tie"""
     for case, c in complaints:
